@@ -22,8 +22,12 @@ type GenOpt struct {
 	IncludePS    bool // include files with their own prefix/suffix
 	IncludeDefs  bool // include files with their own definitions
 	Cmdline      bool
-	StoreLoad    bool
-	Noise        bool // indentation, spacing variants, comments, blank lines
+	// IncludeInCmdline: cmdline blocks may include word-list files
+	IncludeInCmdline bool
+	// CmdLiteral: cmdline blocks may contain `'literal` lines
+	CmdLiteral bool
+	StoreLoad  bool
+	Noise      bool // indentation, spacing variants, comments, blank lines
 	// NoLoneAlt: never let a single line with a top-level alternation stand alone before a
 	// marker (open known finding D6 class).
 	NoLoneAlt bool
@@ -386,7 +390,8 @@ func (s *genState) body(depth int, inCmd bool) []Line {
 	loneAltPending := false
 	add := func(l Line) {
 		l.Ind, l.Sp, l.Trail = s.ind(depth)
-		if l.K == KEntry {
+		if l.K == KEntry || l.K == KStore || l.K == KLoad {
+			// trailing blanks are part of an entry and of a stored-expression name
 			l.Trail = ""
 		}
 		out = append(out, l)
@@ -446,7 +451,16 @@ func (s *genState) body(depth int, inCmd bool) []Line {
 			add(Line{K: KCStart, Cmd: typ})
 			nw := rapid.IntRange(1, 4).Draw(t, "nwords")
 			for j := 0; j < nw; j++ {
-				add(Line{K: KEntry, T: CmdWordGen(t)})
+				switch {
+				case s.o.IncludeInCmdline && len(s.files) > 0 && rapid.IntRange(0, 2).Draw(t, "cmdinc") == 0:
+					add(Line{K: KInclude, File: s.spellFile(rapid.SampledFrom(s.files).Draw(t, "cmdincfile"))})
+					s.label("include-in-cmdline")
+				case s.o.CmdLiteral && rapid.IntRange(0, 5).Draw(t, "cmdlit") == 0:
+					add(Line{K: KEntry, T: "'" + rapid.SampledFrom([]string{`\s+x`, `(?:a|b)`, `[;,]`, `x@`, `y~`}).Draw(t, "cmdlitv")})
+					s.label("cmdline-literal")
+				default:
+					add(Line{K: KEntry, T: CmdWordGen(t)})
+				}
 			}
 			add(Line{K: KEnd})
 			s.label("cmdline-block")
